@@ -363,6 +363,8 @@ def probe_cls(reader_cls):
     class Probe(reader_cls):
         def deserialize(self):
             self.c03_log.append(('t',))
+            if len(self.c03_log) > MAX_DESERIALIZE_CALLS:
+                raise ReaderHang(f'the reader called deserialize() more than {MAX_DESERIALIZE_CALLS} times in one case (busy loop)')
             return super().deserialize()
     Probe.__name__ = 'C03Probe' + reader_cls.__name__
     _PROBES[reader_cls] = Probe
@@ -431,8 +433,16 @@ async def _drive(side, script, stubs, tail_polls):
 CASE_TIMEOUT = 10.0      # wall seconds for one case (a normal case takes about a millisecond)
 
 
-class ReaderHang(Exception):
+class ReaderHang(KeyboardInterrupt):
+    """raised inside a spinning reader; derives from KeyboardInterrupt so that neither the library's `except Exception`
+    nor asyncio's task wrapper can swallow it"""
+
+
+class ReaderHangError(Exception):
     pass
+
+
+MAX_DESERIALIZE_CALLS = 100000       # per case; a case has at most a few hundred reader wake-ups
 
 
 def _on_alarm(signum, frame):
@@ -457,12 +467,15 @@ class Runner:
         signal.setitimer(signal.ITIMER_REAL, CASE_TIMEOUT)
         try:
             return self.loop.run(_drive(side, script, stubs, tail_polls))
-        except ReaderHang:
+        except ReaderHang as e:
             self.hangs += 1
-            self.close()                                # the loop may be in any state: start over
+            try:
+                self.close()                            # the loop may be in any state: start over
+            except BaseException:  # noqa
+                pass
             from vloop import VirtualLoop
             self.loop = VirtualLoop()
-            raise
+            raise ReaderHangError(str(e)) from None
         finally:
             signal.setitimer(signal.ITIMER_REAL, 0)
 
@@ -1001,6 +1014,15 @@ def run(ctx):
             fix_frames_seen.update(case.get('frames') or [side.frame(side.undesc(d)).hex() for d in case['msgs']])
         if res['fail']:
             rep = case
+            if hl is None and 'cuts' in case and runner.hangs == 0:
+                # a corpus case: rebuild the high-level form so that it can be shrunk like a generated one
+                cand = {'proto': case['proto'], 'msgs': case['msgs'], 'cuts': case['cuts'], 'polls': [1] * (len(case['cuts']) + 1),
+                        'stubs': case.get('stubs', {})}
+                try:
+                    if evaluate(ctx, runner, hl_to_case(cand))['fail']:
+                        hl = cand
+                except Exception:  # noqa
+                    pass
             if hl and shrinks[0] < 3 and runner.hangs == 0:
                 shrinks[0] += 1
 
